@@ -661,7 +661,7 @@ pub fn write_evidence(def: &'static PropertyDef, tier: Tier, seed: u64, br: &Bat
             "faults": faults,
             "probes": probes,
             "distinct": distinct,
-            "programs": programs,
+            "program_kinds": programs,
             "discarded": discarded,
             "counters": counters,
             "known_findings_hit": known,
@@ -687,6 +687,15 @@ pub fn write_evidence(def: &'static PropertyDef, tier: Tier, seed: u64, br: &Bat
 
 /// Entry point of `inksim check <ID>`; returns the process exit code.
 pub fn check_main(def: &'static PropertyDef, tier: Tier, seed: u64, workers: u64) -> i32 {
+    // replay files of earlier runs of this property are superseded
+    if let Ok(rd) = std::fs::read_dir(verif_dir().join("replays")) {
+        for e in rd.flatten() {
+            let n = e.file_name().to_string_lossy().to_string();
+            if n.starts_with(&format!("{}-", def.id)) && n.ends_with(".json") {
+                let _ = std::fs::remove_file(e.path());
+            }
+        }
+    }
     let br = run_batch(def, tier, seed, workers);
     let failures = br.failures.clone();
     let rep = triage(def, seed, failures, &br.stats);
